@@ -57,6 +57,9 @@ def diff_states(a, b, exact):
 # ---------------------------------------------------------------------------
 # (a) shipped schemes
 # ---------------------------------------------------------------------------
+PROGRESS = {}
+
+
 def scheme_case(mod, name, dim, solid, opts, nsteps=2):
     from checks import c12_schemes as S
     from compyle.config import get_config
@@ -69,13 +72,15 @@ def scheme_case(mod, name, dim, solid, opts, nsteps=2):
     dts = [1e-5, 2.5e-5, 1e-5]
     sides = {}
     logs = {}
-    for side in ('compiled', 'reference'):
+    for side in ('reference', 'compiled'):
+        PROGRESS['side'] = side
         buf = io.StringIO()
         with contextlib.redirect_stdout(buf):
             s = S.make_scheme(cls, dim, solid, opts)
             s.configure_solver(dt=1e-5, tf=1.0, pfreq=100000)
             pas = S.make_particles(dim, solid, name)
             s.setup_properties(pas, clean=True)
+            S.init_scheme_props(pas, dim)
             eqs = s.get_equations()
             solver = s.solver
             kernel = solver.kernel
@@ -125,6 +130,11 @@ def _scheme_job(args):
     mod, name, dim, solid, opts = args
     from checks import c12_schemes as S
     cls = S.load(mod, name)
+    why = S.run_not_judged(name, dim, solid)
+    if why:
+        # not physically initialised by the generic block: non-finite
+        # positions would be fed to the neighbour search (see C12)
+        return dict(skipped='not run: ' + why)
     status, probs = S.static_check(cls, dim, solid, True, opts)
     if status == 'unsupported' or probs:
         return dict(skipped='static: %s %r' % (status, probs[:1]))
@@ -135,6 +145,11 @@ def _scheme_job(args):
     except Exception as e:  # noqa
         import traceback
         tb = traceback.format_exc()
+        if PROGRESS.get('side') == 'compiled':
+            # the reference completed both steps on the same input
+            return dict(problem='compiled side raised %s: %s (the literal '
+                        'execution completed)' % (type(e).__name__,
+                                                  str(e)[:160]))
         where = 'reference' if 'sph_interp' in tb or \
             'integrator_mirror' in tb else 'set-up'
         return dict(skipped='%s side raised %s: %s' % (
